@@ -180,19 +180,15 @@ def index_formula(ctx):
         ident(ctx, "C14.index", f"misorientation_index:{name}", got, ref, loc)
     # the index is a function of its arguments only: no module-level state is written on its path
     ctx.rule("C14.pure", "no function on the M-index path writes module-level state (a memo shared between lattice systems or snapshots would make the result depend on call history)")
-    mods = {"pydrex.diagnostics": ("misorientation_index", "misorientation_indices"), "pydrex.stats": ("misorientation_hist", "misorientations_random", "_max_misorientation"),
-            "pydrex.geometry": ("misorientation_angles", "symmetry_operations"), "pydrex.utils": ("quat_product",)}
-    for mn, fnames in mods.items():
-        mod = ctx.program.module(mn)
-        for fname in fnames:
-            node = mod.defs.get(fname)
-            if not isinstance(node, ast.FunctionDef):
-                continue
-            eff = flow.effects_of_function(ctx.program, mod, node)
-            bad = [(k, n_, ln) for k, n_, ln in eff if k == "global" or (k in ("attr-store-free", "subscript-store-free", "aug-free")
-                                                                       and (n_.split(".")[0].split("[")[0] in mod.defs or n_.split(".")[0].split("[")[0] in mod.imports))]
-            ctx.ob("C14.pure", f"{mn.split('.')[-1]}.{fname}", not bad, "writes module-level state: " + ", ".join(f"{k} {n_} (line {ln})" for k, n_, ln in bad),
-                   f"{ctx.program.relpath(mod.path)}:{node.lineno}")
+    roots = [("pydrex.diagnostics", "misorientation_index"), ("pydrex.diagnostics", "misorientation_indices"), ("pydrex.stats", "misorientation_hist"),
+             ("pydrex.stats", "misorientations_random"), ("pydrex.stats", "_max_misorientation"), ("pydrex.geometry", "misorientation_angles"),
+             ("pydrex.geometry", "symmetry_operations"), ("pydrex.utils", "quat_product")]
+    for (mn, fname), (mod, node) in sorted(flow.reachable_functions(ctx.program, roots).items()):
+        eff = flow.effects_of_function(ctx.program, mod, node)
+        bad = [(k, n_, ln) for k, n_, ln in eff if k == "global" or (k in ("attr-store-free", "subscript-store-free", "aug-free")
+                                                                   and (n_.split(".")[0].split("[")[0] in mod.defs or n_.split(".")[0].split("[")[0] in mod.imports))]
+        ctx.ob("C14.pure", f"{mn.split('.')[-1]}.{fname}", not bad, "writes module-level state: " + ", ".join(f"{k} {n_} (line {ln})" for k, n_, ln in bad),
+               f"{ctx.program.relpath(mod.path)}:{node.lineno}")
     ctx.floor("C14.pure", 6)
     # histogram call inside misorientation_hist
     rec = {}
@@ -311,6 +307,29 @@ class NotFoldable(Exception):
     pass
 
 
+FOLD_DEFS = {}      # module-level function definitions of pydrex.stats (helpers that only compute constants are folded through)
+
+
+def fold_assign(stmt, env, only_new=False):
+    """env[name] = folded value for `name = expr` and `a, b, c = expr`; silently skips what cannot be folded"""
+    if not isinstance(stmt, ast.Assign) or len(stmt.targets) != 1:
+        return
+    t = stmt.targets[0]
+    try:
+        if isinstance(t, ast.Name):
+            if only_new and t.id in env:
+                return
+            env[t.id] = fold(stmt.value, env)
+        elif isinstance(t, (ast.Tuple, ast.List)) and all(isinstance(x, ast.Name) for x in t.elts):
+            v = fold(stmt.value, env)
+            if isinstance(v, tuple) and len(v) == len(t.elts):
+                for x, vv in zip(t.elts, v):
+                    if not (only_new and x.id in env):
+                        env[x.id] = vv
+    except (ValueError, KeyError, NotFoldable, ZeroDivisionError):
+        pass
+
+
 def fold(node, env):
     """Evaluate a constant numeric expression (np.* -> math.*) with names from env; raises on anything else."""
     if isinstance(node, ast.Constant) and isinstance(node.value, (int, float)):
@@ -342,6 +361,21 @@ def fold(node, env):
                  "sin": math.sin, "cos": math.cos, "arccos": math.acos, "arcsin": math.asin, "exp": math.exp, "log": math.log, "radians": math.radians, "degrees": math.degrees, "abs": abs, "float": float, "int": int}
         if d in table:
             return table[d](*args)
+        callee = FOLD_DEFS.get(d) if isinstance(node.func, ast.Name) else None
+        if isinstance(callee, ast.FunctionDef) and not node.keywords and len(callee.args.args) == len(args):
+            # a helper that only computes constants from its arguments: straight-line assignments and one return
+            inner = {a.arg: v for a, v in zip(callee.args.args, args)}
+            for st in callee.body:
+                if isinstance(st, ast.Expr) and isinstance(st.value, ast.Constant):
+                    continue
+                if isinstance(st, ast.Assign):
+                    fold_assign(st, inner)
+                elif isinstance(st, ast.Return) and st.value is not None:
+                    return fold(st.value, inner)
+                else:
+                    raise NotFoldable(f"helper {d} is not straight-line")
+    if isinstance(node, ast.Tuple):
+        return tuple(fold(e, env) for e in node.elts)
     raise NotFoldable(f"not a foldable constant: {ast.unparse(node)}")
 
 
@@ -349,6 +383,8 @@ def coverage(ctx, I):
     dotted = "pydrex.stats.misorientations_random"
     loc = defloc(ctx, dotted)
     fn = ctx.program.require(dotted)
+    FOLD_DEFS.clear()
+    FOLD_DEFS.update({k: v for k, v in ctx.program.module("pydrex.stats").defs.items() if isinstance(v, ast.FunctionDef)})
     # the chain variable: find the first If whose test is a chained comparison lo <= x <= hi on one name
     chain = None
     for n in ast.walk(fn):
@@ -376,11 +412,7 @@ def coverage(ctx, I):
         env = {"M": M, "N": N, "max_θ": THETA_MAX[name]}
         try:
             for s in fn.body:
-                if isinstance(s, ast.Assign) and isinstance(s.targets[0], ast.Name) and s.targets[0].id not in env:
-                    try:
-                        env[s.targets[0].id] = fold(s.value, env)
-                    except (ValueError, KeyError, NotFoldable):
-                        pass
+                fold_assign(s, env, only_new=True)
             ivs = []
             for a in arms:
                 t = a.test
@@ -469,11 +501,7 @@ def normalisation(ctx, I):
     for name, (M, N) in GRIMMER.items():
         env = {"M": M, "N": N, "max_θ": THETA_MAX[name]}
         for s in fn.body:
-            if isinstance(s, ast.Assign) and isinstance(s.targets[0], ast.Name) and s.targets[0].id not in env:
-                try:
-                    env[s.targets[0].id] = fold(s.value, env)
-                except (ValueError, KeyError, NotFoldable):
-                    pass
+            fold_assign(s, env, only_new=True)
         th = THETA_MAX[name]
         total, hole = 0.0, None
         try:
